@@ -2,7 +2,8 @@
 (* Outbound header pipeline on a client: every catalogue block as a request on stream 1 (and as trailers /   *)
 (* a second request afterwards): normalisation, validation, what reaches the wire, what a failed call leaves. *)
 EXTENDS Scn
-Names == DOMAIN HL
+\* (the sized lists of the catalogue belong to MC_BigC / MC_BigS)
+Names == {n \in DOMAIN HL : BL0[n] < 1000}
 mcRoles == {"c"}
 mcCallsS == {}
 mcCallsC ==
